@@ -38,6 +38,9 @@ RULES = {
     "W6": R3.rule_W6,
     "W7": R3.rule_W7,
     "W8": R3.rule_W8,
+    "D12": R3.rule_D12,
+    "W9": R3.rule_W9,
+    "A13": R3.rule_A13,
     "D11": R3.rule_D11,
     "T19": R3.rule_T19,
     "T18": R3.rule_T18,
@@ -64,6 +67,7 @@ RULES = {
     "A8": L.rule_A8,
     "A7": L2.rule_A7,
     "A9": L2.rule_A9,
+    "A14": L2.rule_A14,
     "D1": U.rule_D1,
     "D2": U.rule_D2,
     "D3": S.rule_D3,
@@ -127,7 +131,7 @@ PROPS = {
         "reachability of an allow-listed site is by review, stated per site in allow/panic_sites.json. Recursive cycles are classified depth-bounded (a parameter tested against a limit with an unconditional exit, every recursive call passes it + k) or unbounded, so a change that stops counting depth turns a recorded finding into a new one. Capacity requests (Vec::with_capacity, reserve, vec![x; n], resize) are panic-capable sites too: a length taken from a value can exceed isize::MAX bytes. Also (W7, cursor discipline): a BasicGarnishData block's cursor is advanced only by one under that block's own capacity test whose full side reallocates that block first, by n only under a test that n cells fit, or shrunk - so no heap index computed from a cursor falls outside its block.",
     },
     "C13": {
-        "rules": ["A3", "T2", "A8", "A7", "A9", "D8"],
+        "rules": ["A3", "T2", "A8", "A7", "A9", "D8", "A14"],
         "claim": "Decides five clauses of C13: (A3) a character that cannot start or continue a token makes lex fail - the lexer's error "
         "slot, once set, is never assigned a possibly-Ok value and no further character is consumed while it is set (path-sensitive "
         "typestate over the MIR of every Lexer method); (T2, first hop) the operator table is the language's 60 spellings; (A8) operators are classified by the trie node their "
@@ -139,19 +143,19 @@ PROPS = {
         "discarded by a buffer reset; the one-shot skip flag is back at rest), which is the inductive step of 'token texts concatenated reproduce the "
         "input'; (A9) positions: in every state the line feed advances the row counter exactly once and not the column, every other character (CR/FF, "
         "left open by the property, excepted) the column exactly once and not the row. Token start positions, longest match beyond the trie step and "
-        "blank-line grouping are value-dependent and not decided. Also (D8): the column counters, which count characters, never receive a UTF-8 byte length (origin analysis of every store into the column fields).",
+        "blank-line grouping are value-dependent and not decided. Also (D8): the column counters, which count characters, never receive a UTF-8 byte length (origin analysis of every store into the column fields). Also (A14): the block that ends a token resets, together with state / buffer / type, every counter and flag the consumer both sets to a constant and changes while reading a token - nothing of one token's bookkeeping carries into the next.",
     },
     "C14": {
-        "rules": ["D1", "D5", "W2", "N5", "D1c", "D10"],
+        "rules": ["D1", "D5", "W2", "N5", "D1c", "D10", "D12", "A14"],
         "claim": "Decides the bytes-vs-characters clause of C14 over the data crate: no UTF-8 byte length (str::len / String::len) reaches a "
         "character-count sink (take/skip/nth on chars(), a CharList(n) header, the result of get_char_list_len), and the literal parsers "
         "contain no truncating char->u8 cast; (D5) an escape accumulator that has been decoded is emptied before it accumulates the next "
         "escape, on every path of the literal parsers (typestate over their MIR); (W2) a number literal is stored as the number it spells: the "
         "hash that alone keys SimpleGarnishData's constant table separates every two numbers the type distinguishes (so `5.0` after `5` is not "
-        "handed the Integer's address). Radix parsing and round-trips are value-level and not decided. Also (N5): the literal parsers hand a parsed integer to the number type only through a conversion whose From impl does not narrow with an `as` cast (an integer literal outside i32 becomes a float, it does not wrap). A CharList(n) header written before a run of Char cells counts the very string whose characters are written (D1c). Also (D10, character accounting in the literal parsers): every iteration of a loop over a literal's characters appends to the output, changes the parser's state, fails or stops; the only documented drops (the brace of a \\u{..} escape, raw line feeds / tabs laying out a single-quoted text) are counted per function, so a byte-list or char-list literal cannot silently lose characters it spells.",
+        "handed the Integer's address). Radix parsing and round-trips are value-level and not decided. Also (N5): the literal parsers hand a parsed integer to the number type only through a conversion whose From impl does not narrow with an `as` cast (an integer literal outside i32 becomes a float, it does not wrap). A CharList(n) header written before a run of Char cells counts the very string whose characters are written (D1c). Also (D10, character accounting in the literal parsers): every iteration of a loop over a literal's characters appends to the output, changes the parser's state, fails or stops; the only documented drops (the brace of a \\u{..} escape, raw line feeds / tabs laying out a single-quoted text) are counted per function, so a byte-list or char-list literal cannot silently lose characters it spells. Also (D12): the builder hands the data object's parse_add_* the literal / symbol token's own text, at most cut at its ends - never filtered or rebuilt - so 'a symbol keeps the name it was written with'. Also (A14): the quote counters of one quoted literal are reset when its token ends, so the next literal's closing quotes are counted from zero.",
     },
     "C15": {
-        "rules": ["D2", "D3", "W1", "W2", "D3b", "W6", "W7", "W8", "D1", "D1c"],
+        "rules": ["D2", "D3", "W1", "W2", "D3b", "W6", "W7", "W8", "D1", "D1c", "W9"],
         "claim": "Decides four structural clauses of C15: (D2) every index/slice of BasicGarnishData's raw heap vector is rebased on a "
         "StorageBlock.start (followed through locals, parameters to their call sites, struct fields to their initialisers); (D3) the six "
         "push_to_*_block siblings and the six copy stanzas of reallocate_heap each use one block in every role and agree on the "
@@ -159,17 +163,17 @@ PROPS = {
         "SimpleGarnishData's value list is append-only; (W2) every hand-written Hash impl inside the key of SimpleGarnishData's hash-keyed "
         "constant table feeds the hasher a loss-free encoding of the whole payload (no narrowing cast, rounding, or ignored payload), "
         "the necessary condition for 'a different constant gets a different address' since cache_add never compares the stored value. "
-        "Correctness for every interleaving/growth policy is not decided. Also (D3b): every returning path through reallocate_heap that installs new extents for one block installs them for all six (no shortcut that moves some blocks only). The same (W6) under this property: a returned address is an address written. Also (W7): a block's cursor never passes its size (by-one advance under that block's capacity test, by-n advance under a fit test), so a later push cannot land in the neighbouring table's cells. Also (W8): the constant table of SimpleGarnishData is written only together with the push of the value it names ('an equal constant returns the same address, a different constant a different address' needs every entry to name a cell holding the hashed value). Also (D1 / D1c): the CharList(n) header BasicGarnishData writes counts characters, of the very string whose characters follow it - a header that claims more cells than were written makes the value absorb whatever is pushed next.",
+        "Correctness for every interleaving/growth policy is not decided. Also (D3b): every returning path through reallocate_heap that installs new extents for one block installs them for all six (no shortcut that moves some blocks only). The same (W6) under this property: a returned address is an address written. Also (W7): a block's cursor never passes its size (by-one advance under that block's capacity test, by-n advance under a fit test), so a later push cannot land in the neighbouring table's cells. Also (W8): the constant table of SimpleGarnishData is written only together with the push of the value it names ('an equal constant returns the same address, a different constant a different address' needs every entry to name a cell holding the hashed value). Also (D1 / D1c): the CharList(n) header BasicGarnishData writes counts characters, of the very string whose characters follow it - a header that claims more cells than were written makes the value absorb whatever is pushed next. Also (W9): the SimpleGarnishData methods that add a constant (numbers, characters, bytes, symbols, types, expressions, externals, text and byte-list literals) return the address the interning function returned on every path, so adding an equal constant again returns the same address.",
     },
     "C16": {
-        "rules": ["G4", "T14", "D9", "G4c", "G7"],
+        "rules": ["G4", "T14", "D9", "G4c", "G7", "A13"],
         "claim": "Decides the 'absent is not an error' clause of C16: inside both implementations of get_list_item / "
         "get_list_item_with_symbol / get_list_len / get_list_item_iter, their list helpers, and the runtime's index_list / "
         "access_with_symbol, the locally constructed errors are exactly the reviewed ones (not-a-list, corrupt cell); any other "
         "constructed error - in particular one that depends on the index value or the item kind - is reported; and every "
         "match-based comparator the data crate hands to a sort or binary search (the association slots of a list, the two symbol "
         "tables) is antisymmetric: mirrored arguments get opposite orderings (T14) - a necessary condition for the sorted prefix the "
-        "key lookup searches. Order, length and that every present key is found are not decided beyond that. Also: match-based sort comparators order two keyed cells ascending by their first payload field, the key the binary search compares (T14); the end handed to Extents::new is a length / exclusive bound, never `len - 1` (D9). A function that hands a caller-supplied number to the data's get_*_item tests it against zero first (G4c, sibling agreement of the four index_* functions) - the data impls clamp a negative number to index 0. Also (G7): wherever a concatenation is taken apart by hand (get_concatenation destructured into two used operands) both operands get the same treatment - neither side is read as a single item while the other is walked on - so look-ups and indexing see the items of a concatenation nested on either side.",
+        "key lookup searches. Order, length and that every present key is found are not decided beyond that. Also: match-based sort comparators order two keyed cells ascending by their first payload field, the key the binary search compares (T14); the end handed to Extents::new is a length / exclusive bound, never `len - 1` (D9). A function that hands a caller-supplied number to the data's get_*_item tests it against zero first (G4c, sibling agreement of the four index_* functions) - the data impls clamp a negative number to index 0. Also (G7): wherever a concatenation is taken apart by hand (get_concatenation destructured into two used operands) both operands get the same treatment - neither side is read as a single item while the other is walked on - so look-ups and indexing see the items of a concatenation nested on either side. Also (A13): between start_list and end_list nothing is called that may itself start a list on a data object (SimpleGarnishData builds one list at a time), so a list with an item that needs building - a nested list being copied - keeps its own items in order.",
     },
     "C11": {
         "rules": ["T5", "D1", "T15", "W4", "A11", "W2"],
@@ -213,14 +217,14 @@ PROPS = {
         "instruction it should point at. Root-stack exhaustion depends on program shape and is not decided. Also (G5): build() rejects every parse result in which a node is reachable twice - the validating walk has no iteration path that neither marks the node nor fails - so no node is built under two parents (the second build state would overwrite the first and leave its reserved jump-table entry unpatched).",
     },
     "C20": {
-        "rules": ["D4", "W1", "W3", "W2", "W8"],
+        "rules": ["D4", "W1", "W3", "W2", "W8", "W6"],
         "claim": "Decides the index-provenance clause of C20: every index a build emits or reports (jump operands, expression values, the "
         "entry index, jump-table entries) originates from the data object's current table lengths or from its own add_* results, never "
         "from a literal or an absolute position (D4), and build mutates earlier state only through get_from_jump_table_mut on its own "
         "placeholders (W1); a constant built into a shared data object starts from an empty accumulator: every function that starts a "
         "string / byte-list / list accumulation stores a fresh Some(collection) on every path, never conditionally on what an earlier, "
         "possibly aborted, accumulation left in the field (W3, must-pass-through on the MIR CFG). That each program computes the same result "
-        "as when built alone is not decided. Also (W2): the hash that alone keys SimpleGarnishData's constant table separates every two numbers the type distinguishes (per-variant feeds or the discriminant), so a later program's literal cannot be handed an earlier program's different constant. Also (W8): SimpleGarnishData's constant table (hash -> address) is written only by the function that pushes the hashed value and records the address it was pushed at, so a program built later into the object (or into a clone of it) is never handed a cell that holds a different constant.",
+        "as when built alone is not decided. Also (W2): the hash that alone keys SimpleGarnishData's constant table separates every two numbers the type distinguishes (per-variant feeds or the discriminant), so a later program's literal cannot be handed an earlier program's different constant. Also (W8): SimpleGarnishData's constant table (hash -> address) is written only by the function that pushes the hashed value and records the address it was pushed at, so a program built later into the object (or into a clone of it) is never handed a cell that holds a different constant. Also (W6): BasicGarnishData's add_* / parse_add_* return the address a store primitive returned for the value it wrote, never one computed from stored indices - so a program built into an object with history (after an optimize, or with host-registered names) gets operands that name its own values.",
     },
     "C06": {
         "rules": ["A1", "A6", "D6", "T8", "A11", "D7", "T11"],
@@ -257,12 +261,12 @@ PROPS = {
         "re-joins after the out-of-line operand / arm is always emitted. Order and at-most-one-arm in else-chains are not decided. The Tis that makes the out-of-line right operand of && / || a boolean is added on every path (must-pass-through before the right root is constructed), never 'unless the operand is already boolean'.",
     },
     "C17": {
-        "rules": ["A4", "A1", "T2", "T10", "W5", "W6", "A12"],
+        "rules": ["A4", "A1", "T2", "T10", "W5", "W6", "A12", "D12"],
         "claim": "Decides the per-occurrence clauses of C17: in `resolve` the host callback is reached only on paths where the input-value "
         "lookup pushed nothing, at most once, with the symbol stored at the instruction's own operand, and a declining host leaves "
         "exactly one unit (A4 + A1); in apply the host's apply callback receives the external's number and the right operand, once; "
         "identifiers are compiled to Resolve carrying the symbol of their own text and properties to Put (T2 wiring, T10 attribution). "
-        "Counts and order across a whole program are not decided. Also (W5): every function that builds a SimpleGarnishData from another one carries over each function-pointer field (resolver, op handler), so the documented callbacks still fire on a clone. BasicGarnishData's add_* / parse_add_* return the address a store primitive returned for the value they wrote, never an address computed from stored indices (W6) - the operand of the Resolve the builder emits must stay a symbol. Also (A12): both data implementations hand the host's answer to the runtime unchanged - resolve / apply / defer_op return the callback's own result (or false when no host is consulted), never a value recomputed from the object's state.",
+        "Counts and order across a whole program are not decided. Also (W5): every function that builds a SimpleGarnishData from another one carries over each function-pointer field (resolver, op handler), so the documented callbacks still fire on a clone. BasicGarnishData's add_* / parse_add_* return the address a store primitive returned for the value they wrote, never an address computed from stored indices (W6) - the operand of the Resolve the builder emits must stay a symbol. Also (A12): both data implementations hand the host's answer to the runtime unchanged - resolve / apply / defer_op return the callback's own result (or false when no host is consulted), never a value recomputed from the object's state. Also (D12): the symbol the builder asks the data object to resolve is parsed from the identifier token's own text, at most cut at its ends (back ticks trimmed) - so the host's resolve callback is asked about the symbol of the identifier that was written.",
     },
     "C09": {
         "rules": ["N1", "N2", "N3", "W2", "N6", "N7", "N8"],
@@ -275,13 +279,13 @@ PROPS = {
         "overflowing_*/f64 operations is trusted, not decided. Also (N6): 'no result' is decided on exact conditions only - no tolerance test (|x| < eps, comparison with EPSILON) turns a finite, representable quotient into unit. Also (N8): integer operands are compared only with the documented domain bounds of the operation (zero; 0/31/32 for shift counts; -1 for the MIN / -1 case) - no threshold or magnitude test predicts an overflow by hand, so a representable result at the asymmetric edge of the 32-bit range is not turned into unit.",
     },
     "C12": {
-        "rules": ["T6", "N4", "T15", "T16"],
+        "rules": ["T6", "N4", "T15", "T16", "W2"],
         "claim": "Decides the wiring clause of C12: each of the four comparison functions reports an ordering for incomparable "
         "operands on which its own predicate is false, applies the predicate its name states, and the comparison helper "
         "makes only like-typed pairs of the ordered types comparable; every arm of SimpleNumber's partial_cmp returns the "
         "primitive partial_cmp of its operands, so NaN stays incomparable (unit) and -0.0 equals 0.0 (N4); the lexicographic walk of two "
         "lists loses no element before the lengths are compared (T15: no lossy iterator adaptor over a borrowed operand that is consulted "
-        "again - the shorter-prefix-first clause). Agreement with the natural order on ordinary values is std's and is not decided. Also (T16): in the element-wise list comparison the two lengths are compared only after the element loop (dominance on the MIR CFG) - the shorter-prefix-first tie-break, never a length-first order. Every arm of SimpleNumber::partial_cmp compares self with other in that order (N4 operands-swapped).",
+        "again - the shorter-prefix-first clause). Agreement with the natural order on ordinary values is std's and is not decided. Also (T16): in the element-wise list comparison the two lengths are compared only after the element loop (dominance on the MIR CFG) - the shorter-prefix-first tie-break, never a length-first order. Every arm of SimpleNumber::partial_cmp compares self with other in that order (N4 operands-swapped). Also (W2): operands are compared through the cells their addresses name, and SimpleGarnishData hands equal-hash constants one cell - the hash that alone keys that table is a loss-free encoding of the whole number, so two different numbers are never conflated (which would make them compare as equal).",
     },
 }
 
